@@ -7,6 +7,9 @@
 //	          `run` op lines (complete wire-share vectors of every party,
 //	          recomputed by the Lean model from the observed input shares and
 //	          the pool snapshot)
+//	c10 hist  session histories: 2..5 consecutive Run calls on one connected
+//	          network (hist.go); `hist` op lines replayed on the model's fold
+//	          over the state a Network keeps between two calls
 //	c10 pool  Triples.Append / TriplePool.Get op sequences (with arrivals
 //	          racing a blocked Get) and the bit-vector leaf functions
 //	c10 tb    tripleBatch at n parties over in-memory connections with
@@ -32,7 +35,7 @@ import (
 
 func main() {
 	if len(os.Args) < 2 {
-		fmt.Fprintln(os.Stderr, "usage: c10 sess|pool|tb ...")
+		fmt.Fprintln(os.Stderr, "usage: c10 sess|hist|pool|tb ...")
 		os.Exit(2)
 	}
 	// the gmw package prints progress lines on stdout
@@ -42,6 +45,8 @@ func main() {
 	switch os.Args[1] {
 	case "sess":
 		sessMode(os.Args[2:])
+	case "hist":
+		histMode(os.Args[2:])
 	case "pool":
 		poolMode(os.Args[2:])
 	case "tb":
